@@ -302,6 +302,10 @@ pub struct Encoder<'a> {
     /// when true, copies with an invalid distance are encoded anyway and
     /// fabricate nothing in `hist` (used to build rejecting streams)
     pub allow_bad_ref: bool,
+    /// with `allow_bad_ref`: append this byte `len` times for an invalid copy,
+    /// i.e. keep coding consistently with what a decoder *without* the
+    /// distance guard (reading zeros / stale bytes) would see afterwards
+    pub fabricate: Option<u8>,
 }
 
 impl<'a> Encoder<'a> {
@@ -314,6 +318,7 @@ impl<'a> Encoder<'a> {
             table: Vec::new(),
             start_len,
             allow_bad_ref: false,
+            fabricate: None,
         }
     }
 
@@ -364,6 +369,13 @@ impl<'a> Encoder<'a> {
     fn copy(&mut self, dist: u64, len: u32) -> bool {
         let n = self.hist.len() as u64;
         if dist == 0 || dist > n {
+            if self.allow_bad_ref {
+                if let Some(f) = self.fabricate {
+                    for _ in 0..len {
+                        self.hist.push(f);
+                    }
+                }
+            }
             return false;
         }
         let mut from = (n - dist) as usize;
@@ -429,7 +441,7 @@ impl<'a> Encoder<'a> {
                     self.rc.bit(&mut probs[sym], bit as u32);
                     sym = (sym << 1) | bit;
                 }
-                if ok {
+                if ok || self.fabricate.is_some() {
                     self.hist.push(b);
                 }
                 m.state = state_after_lit(st);
